@@ -249,6 +249,17 @@ func buildResponse(op string, status int, shape string) *t_api.Response {
 				// both front ends assert task and mesg when the status is 20100
 				r.Task.Mesg = &message.Mesg{Type: message.Invoke, Root: "p1"}
 			}
+		case "notify", "resume", "invoke":
+			// a claimed task of each kind: a notification and an invocation carry the root promise only
+			r.Task = fullTask()
+			r.Task.Mesg = &message.Mesg{Type: message.Type(shape), Root: "p1"}
+			r.RootPromise = fullPromise("p1", 1)
+			r.RootPromiseHref = "http://127.0.0.1:8001/promises/p1"
+			if shape == "resume" {
+				r.Task.Mesg.Leaf = "p2"
+				r.LeafPromise = fullPromise("p2", 2)
+				r.LeafPromiseHref = "http://127.0.0.1:8001/promises/p2"
+			}
 		}
 		return &t_api.Response{Kind: t_api.ClaimTask, ClaimTask: r}
 	case "CompleteTask":
